@@ -46,7 +46,7 @@ STREAMS = {
 P = "OpfVerif.Props."
 PROPS = {
     # fit line segments: 0 proto, 1 cost, 2 pred, 3 assigned label, 4 true label, 5 order, 6 drained, 7 predictions, 8 relevant
-    "C01": {"modules": [P + "C01", P + "C01Exec", P + "C01Refine", P + "C01Gen"], "streams": ["fit", "learn"], "min_classes": 2,
+    "C01": {"modules": [P + "C01", P + "C01Exec", P + "C01Refine", P + "C01Gen", P + "C01Build"], "streams": ["fit", "learn"], "min_classes": 2,
             "relevant": {"fit": [1, 2, 3, 5, 6], "lawfit": None}},
     "C02": {"modules": [P + "C02", P + "C02Exec", P + "C02Weight", P + "C02WeightGraph", P + "C02Refine", P + "C02Gen"], "streams": ["prim", "fit", "semi", "learn"],
             "relevant": {"prim": None, "lawprim": None, "fit": [0]}},
